@@ -43,17 +43,23 @@ def with_check_digits(country, cl, body, want: dict):
     return None
 
 
-def judge_mutation(valid: str, mutated: str):
+def judge_mutation(valid: str, mutated: str, via_object: bool = False):
     k0, _ = lib.iban_parse(valid)
     if k0 != "ok":
         return "skipped", None
     k, v = lib.iban_parse(mutated)
+    if k != "ok" and via_object:
+        ko, obj = lib.outcome(lib.IBAN, mutated, allow_invalid=True)
+        if ko == "ok":
+            k, v = lib.outcome(lambda: str(lib.IBAN(obj)))
     return ("bad" if k == "ok" else "good"), (k, v)
 
 
 def shard(args):
     if args[0] == "after-activity":
         return after_activity_shard(args)
+    if args[0] == "python -O":
+        return par.in_interpreter(["-O"], "mc.props.c03", "optimised_child", args[1])
     country, tier = args
     part = par.Part()
     c = reg.countries()[country]
@@ -106,6 +112,17 @@ def shard(args):
                 part.stat("after_partner_country")
         k, v = lib.iban_parse(mutated)
         part.stat(kind_)
+        if k != "ok" and via_object:
+            # the validating constructor given an IBAN object built with validation off
+            ko, obj = lib.outcome(lib.IBAN, mutated, allow_invalid=True)
+            if ko == "ok":
+                k, v = lib.outcome(lambda: str(lib.IBAN(obj)))
+                part["evals"] += 1
+                if k == "ok":
+                    part.violation(f"{kind_}-undetected-when-given-as-an-IBAN-object",
+                                   {"kind": "c03", "valid": valid, "mutated": mutated, "how": how,
+                                    "via_object": True}, "reject", (k, v))
+                    return
         if k == "ok":
             if pc is None:
                 part.violation(f"{kind_}-undetected", {"kind": "c03", "valid": valid, "mutated": mutated,
@@ -116,12 +133,14 @@ def shard(args):
                                 "how": how}, "reject", (k, v))
 
     partner_pre = None
+    via_object = False
 
     for f in dict.fromkeys(fillers):
         base = bases.bban(c, f)
         L = len(base)
         # partner sequences for one filler (the collision needs equal check digits: ~1 typo in 97)
         partner_pre = bases.partners(country)[:3] if f == fillers[0] else None
+        via_object = f == fillers[-1]
         # ---- substitutions and transpositions inside the BBAN
         for p in range(L):
             for alpha in kinds(cl[p]):
@@ -226,18 +245,50 @@ def after_activity_shard(args):
     return part.done()
 
 
+def optimised_child(tier):
+    """Runs inside ``python -O``: for every country every position, successor substitution."""
+    part = par.Part()
+    for country in sorted(reg.countries()):
+        c = reg.countries()[country]
+        cl = bases.classes_of(c)
+        for f in ("distinct", "letters"):
+            body = bases.bban(c, f)
+            valid = bases.iban_text(country, body)
+            if lib.iban_parse(valid)[0] != "ok":
+                continue
+            for p in range(2, len(valid)):
+                x = valid[p]
+                alpha = DIG if x in DIG else UP
+                y = alpha[(alpha.index(x) + 1) % len(alpha)]
+                if p >= 4 and y not in reg.CLASS_CHARS[cl[p - 4]]:
+                    continue
+                m = valid[:p] + y + valid[p + 1:]
+                part.count(("-O", m))
+                k, v = lib.iban_parse(m)
+                if k == "ok":
+                    part.violation("substitution-undetected [python -O]",
+                                   {"kind": "c03", "valid": valid, "mutated": m, "how": "python -O"},
+                                   "reject", (k, v))
+    part.stat("optimised_interpreter_runs")
+    return part.done()
+
+
 def replay(case: dict) -> dict:
+    if case.get("how") == "python -O":
+        part = par.in_interpreter(["-O"], "mc.props.c03", "optimised_child", "quick")
+        hit = [v for v in part["violations"] if v["case"]["mutated"] == case["mutated"]]
+        return {"ok": not hit, "observed": hit[0]["observed"] if hit else None, "interpreter": "python -O"}
     if case.get("kind") == "c03seq":
         pc, m = case["partner"], case["mutated"]
         lib.iban_parse(pc + ri.check_digits(pc, m[4:]) + m[4:])
-    verdict, obs = judge_mutation(case["valid"], case["mutated"])
+    verdict, obs = judge_mutation(case["valid"], case["mutated"], bool(case.get("via_object")))
     return {"ok": verdict != "bad", "observed": obs, "expected": "reject"}
 
 
 def main(tier: str) -> int:
     run = report.Run(PID, tier, "exploration", RULE)
     countries = sorted(reg.countries())
-    par.run_shards(run, shard, [("after-activity", tier)] + [(c, tier) for c in countries])
+    par.run_shards(run, shard, [("after-activity", tier), ("python -O", tier)] + [(c, tier) for c in countries])
     run.extra.update({"countries": len(countries), "error_bound": "one substitution or one adjacent "
                       "transposition per text", "fillers": "digits, letters" + (
                           ", distinct, max, seeded" if tier == "thorough" else "")})
